@@ -1599,42 +1599,22 @@ func explicitHeadsComeFromTheLoader(c *Ctx, r *Report, rule string) {
 	optHeads, optEntries := p.Field("", "LogOptions", "Heads"), p.Field("", "LogOptions", "Entries")
 	snapHeads := p.Field("iface", "Snapshot", "Heads")
 	newLog := p.Func("", "", "NewLog")
+	findHeads := p.Func("entry", "", "FindHeads").Obj
 	isSnapshot := func(t types.Type) bool {
 		if pt, ok := t.Underlying().(*types.Pointer); ok {
 			t = pt.Elem()
 		}
 		return isNamed(t, p.pkgPath("iface"), "Snapshot")
 	}
+	isNilConst := func(v ssa.Value) bool {
+		cst, ok := v.(*ssa.Const)
+		return ok && cst.IsNil()
+	}
 	n := 0
-	for _, fn := range p.Fns {
-		if fn.Body == nil || fn.Pkg.PkgPath != p.pkgPath("") {
-			continue
-		}
-		sf := p.SSAFunc(fn)
-		if sf == nil {
-			continue
-		}
-		var headsVal, entriesVal ssa.Value
-		var headsPos token.Pos
-		allInstrs(sf, false, func(ins ssa.Instruction) {
-			st, ok := ins.(*ssa.Store)
-			if !ok {
-				return
-			}
-			switch f, _ := fieldOf(st.Addr); f {
-			case optHeads:
-				headsVal, headsPos = st.Val, st.Pos()
-			case optEntries:
-				entriesVal = st.Val
-			}
-		})
-		if headsVal == nil || fn == newLog {
-			continue // NewLog's own search, over all the entries it was given, is the default
-		}
-		if cst, ok := headsVal.(*ssa.Const); ok && cst.IsNil() {
-			continue
-		}
-		n++
+	// check examines one place where heads and entries meet: the store into the options, or — when the options
+	// are built by an unexported helper from its parameters — the call of that helper.
+	var check func(fn *Fn, sf *ssa.Function, headsVal, entriesVal ssa.Value, headsPos token.Pos, depth int)
+	check = func(fn *Fn, sf *ssa.Function, headsVal, entriesVal ssa.Value, headsPos token.Pos, depth int) {
 		var loaders []*ssa.Call
 		stopAtLoader := func(x ssa.Value) bool {
 			if call, ok := x.(*ssa.Call); ok {
@@ -1647,6 +1627,7 @@ func explicitHeadsComeFromTheLoader(c *Ctx, r *Report, rule string) {
 		}
 		bad, fromSnapshot := "", false
 		var badPos token.Pos
+		var viaParam *ssa.Parameter
 		for x := range backSlice(headsVal, stopAtLoader) {
 			if x.Parent() != sf {
 				continue
@@ -1655,17 +1636,59 @@ func explicitHeadsComeFromTheLoader(c *Ctx, r *Report, rule string) {
 			case *ssa.Parameter:
 				if _, isSl := y.Type().Underlying().(*types.Slice); isSl {
 					bad, badPos = "the parameter "+y.Name(), headsPos
+					viaParam = y
 				}
 			case *ssa.FieldAddr, *ssa.Field:
 				if f, _ := fieldOf(y); f == snapHeads {
 					fromSnapshot = true
 				}
 			case *ssa.Call:
-				if cal := y.Call.StaticCallee(); cal != nil && cal.Object() == p.Func("entry", "", "FindHeads").Obj {
+				if cal := y.Call.StaticCallee(); cal != nil && cal.Object() == findHeads {
 					bad, badPos = "a head search of its own", y.Pos()
 				}
 			}
 		}
+		// an unexported helper that builds the options from what it is handed: the question moves to its callers
+		if viaParam != nil && !fromSnapshot && depth < 2 && fn.Decl != nil && !fn.Decl.Name.IsExported() && fn.Decl.Recv == nil {
+			hIdx, eIdx := -1, -1
+			for i, par := range sf.Params {
+				if par == viaParam {
+					hIdx = i
+				}
+				if entriesVal != nil && backSlice(entriesVal, nil)[par] {
+					eIdx = i
+				}
+			}
+			sites := 0
+			for _, g := range p.Fns {
+				if g.Body == nil {
+					continue
+				}
+				sg := p.SSAFunc(g)
+				if sg == nil {
+					continue
+				}
+				allInstrs(sg, true, func(ins ssa.Instruction) {
+					call, ok := ins.(*ssa.Call)
+					if !ok || call.Call.StaticCallee() != sf || hIdx >= len(call.Call.Args) {
+						return
+					}
+					sites++
+					if isNilConst(call.Call.Args[hIdx]) {
+						return // this caller names no heads
+					}
+					var ev ssa.Value
+					if eIdx >= 0 && eIdx < len(call.Call.Args) {
+						ev = call.Call.Args[eIdx]
+					}
+					check(g, call.Parent(), call.Call.Args[hIdx], ev, call.Pos(), depth+1)
+				})
+			}
+			if sites > 0 {
+				return
+			}
+		}
+		n++
 		headLoaders := loaders
 		loaders = nil
 		sameLoader := false
@@ -1689,6 +1712,33 @@ func explicitHeadsComeFromTheLoader(c *Ctx, r *Report, rule string) {
 		r.Check(bad == "", rule, r.Key(rule, fn, "explicit-heads", ""), badPosOr(badPos, headsPos),
 			"the heads handed to NewLog are the Heads of the snapshot the entries come from",
 			fmt.Sprintf("%s hands NewLog heads taken from %s: they are not searched for in the entries the loader returned — what the walk added below or beside them, or left out, is not reflected, and the linearised view starts from entries that are not the heads of what the log holds", fn.Name, bad))
+	}
+	for _, fn := range p.Fns {
+		if fn.Body == nil || fn.Pkg.PkgPath != p.pkgPath("") || fn == newLog {
+			continue // NewLog's own search, over all the entries it was given, is the default
+		}
+		sf := p.SSAFunc(fn)
+		if sf == nil {
+			continue
+		}
+		var headsVal, entriesVal ssa.Value
+		var headsPos token.Pos
+		allInstrs(sf, false, func(ins ssa.Instruction) {
+			st, ok := ins.(*ssa.Store)
+			if !ok {
+				return
+			}
+			switch f, _ := fieldOf(st.Addr); f {
+			case optHeads:
+				headsVal, headsPos = st.Val, st.Pos()
+			case optEntries:
+				entriesVal = st.Val
+			}
+		})
+		if headsVal == nil || isNilConst(headsVal) {
+			continue
+		}
+		check(fn, sf, headsVal, entriesVal, headsPos, 0)
 	}
 	r.Floor(rule, "constructors that hand explicit heads to NewLog", n, 1)
 }
@@ -1874,7 +1924,7 @@ func preSignAdditionsAreInTheView(c *Ctx, r *Report, rule string) {
 	})
 	r.Floor(rule, "PreSign implementations examined", nPre, 1)
 	r.Floor(rule, "entry fields PreSign writes into", len(fields), 1)
-	r.Floor(rule, "returns of Normalize", nRet, 2)
+	r.Floor(rule, "returns of Normalize", nRet, 1)
 }
 
 // oneRequestPerHash: a function asks the block store for a given hash once. A second request for the same
